@@ -700,6 +700,11 @@ class SymInt(_SymBase):
     def __format__(s, spec):
         return format(eng().concretize(s.e), spec)
 
+    def __round__(s, nd=None):
+        if nd is None or nd >= 0:
+            return SymInt(s.e, s.np)
+        raise Inconclusive("round to negative digits")
+
     def item(s):
         return SymInt(s.e, False)
 
@@ -892,6 +897,16 @@ class SymReal(_SymBase):
 
     def __bool__(s):
         return eng().decide(s.e != 0)
+
+    def __round__(s, nd=None):
+        sc = 10 ** (nd or 0)
+        q = s.e * sc
+        f = z3.ToInt(q)
+        d = q - z3.ToReal(f)
+        r = z3.If(d < _frac(0.5), f, z3.If(d > _frac(0.5), f + 1, z3.If(f % 2 == 0, f, f + 1)))
+        if nd is None:
+            return SymInt(r)
+        return SymReal(z3.ToReal(r) / sc)
 
     def __float__(s):
         e = z3.simplify(s.e)
